@@ -44,7 +44,14 @@ TenT = Tup(List(PnT), List(AxisT), XvT, List(XvT))
 PTCHECK = CheckFn("c06-pt", "Model.PTensorCheck", "pt_check",
                   Tup(Nat, List(Nat), List(XvT), List(TenT), Tup(Nat, List(Nat), List(XvT))),
                   imports=_IMP + ["Model.XVal", "Model.PTensor"])
-CHECKFNS = [BASIC, INDEX, UNIFY, ANTI, FRESHEN, ALPHA, CLONE, PRODUCT, TYPED, REPR, PTCHECK]
+_PT2 = Tup(Nat, List(Nat), List(XvT), List(TenT), Tup(Nat, List(Nat), List(XvT)))
+_IMP2 = _IMP + ["Model.XVal", "Model.PTensor", "Model.PTensorCheck", "Model.PTensorOps"]
+PT_SELECT = CheckFn("c06-pt-select", "Model.PTensorOpsCheck", "pt_check_select", _PT2, imports=_IMP2)     # where, stack
+PT_REDUCE = CheckFn("c06-pt-reduce", "Model.PTensorOpsCheck", "pt_check_reduce", _PT2, imports=_IMP2)     # any, dim_to_dense, project
+PT_RESHAPE = CheckFn("c06-pt-reshape", "Model.PTensorOpsCheck", "pt_check_reshape", _PT2, imports=_IMP2)  # reshape, view
+PT_STORAGE = CheckFn("c06-pt-storage", "Model.PTensorOpsCheck", "pt_check_storage", _PT2, imports=_IMP2)  # copy_, to
+PT2 = {"select": PT_SELECT, "reduce": PT_REDUCE, "reshape": PT_RESHAPE, "storage": PT_STORAGE}
+CHECKFNS = [BASIC, INDEX, UNIFY, ANTI, FRESHEN, ALPHA, CLONE, PRODUCT, TYPED, REPR, PTCHECK, PT_SELECT, PT_REDUCE, PT_RESHAPE, PT_STORAGE]
 
 ASSUMPTIONS = [
     "PhysicalAxis objects are numbered by the harness (uid) in order of first appearance; fresh axes created by the library are numbered in creation order as far as that order is observable (antisubst / rename dict order)",
@@ -395,6 +402,31 @@ def run(tier, seed):
                                             call="PatternedTensor.%s" % desc["op"]))
         cov["tensor_level"]["model_checked"] = dict(cases=len(ptvals), verdicts=hist, kernel_reevaluated=nkp)
     if ptvals: jobs.append((PTCHECK, [v for v, _ in ptvals], "c06pt", 12, pt_done))
+    # (ii'') the operations of Model/PTensorOps.v, one check function per group
+    ptvals2 = cov.pop("_ptvals2", [])
+    cov["tensor_level"]["model_checked_ops2"] = {}
+    V2 = {1: "shape differs from the dense specification", 2: "values differ from the dense specification",
+          3: "ZeroDivisionError where the dense operation is defined", 4: "exception where the dense operation is defined",
+          5: "reshape raised RuntimeError on a target that must succeed (adjacent merge / size-1 insertion or removal)",
+          10: "shape differs from the model", 11: "values differ from the model", 12: "model out of fuel", 13: "model failed, implementation succeeded",
+          14: "model succeeded, implementation raised", 15: "storage re-use decision of copy_ differs from the model", 20: "malformed wire tensor", 21: "wrong group"}
+    def make_done(group, gv):
+        def done(codes, nkp):
+            hist = {}
+            for (v, desc), c in zip(gv, codes):
+                hist[c] = hist.get(c, 0) + 1
+                if c == 0: continue
+                violations.append(Violation("%s: %s (verdict %d)" % (desc["op"], V2.get(c, "?"), c), case=desc,
+                                            oracle=("spec_op2 (dense specification on brute-force denotations)" if c < 10 else None),
+                                            corr="corr:pt_check_%s (Model.PTensorOps vs fggs.indices)" % group, failing_input_found=(c < 10),
+                                            call="PatternedTensor.%s" % desc["op"]))
+            ops = {}
+            for v, desc in gv: ops[desc["op"]] = ops.get(desc["op"], 0) + 1
+            cov["tensor_level"]["model_checked_ops2"][group] = dict(cases=len(gv), by_op=ops, verdicts=hist, kernel_reevaluated=nkp)
+        return done
+    for group, cf in PT2.items():
+        gv = [(v, d) for v, d in ptvals2 if OPS.GROUP2[v[0]] == group]
+        if gv: jobs.append((cf, [v for v, _ in gv], "c06pt" + group, 8, make_done(group, gv)))
     # (iii) judge everything the monitor saw
     vals = [v for v in MON.seen.values() if v[0] != "malformed"]
     for v in MON.seen.values():
@@ -420,12 +452,13 @@ def run(tier, seed):
     return cov, violations
 
 OPEN_ITEMS = [
-    "C06_unify_complete is now proved UNBOUNDED (notes/UNIFY.md): for patterns typed alike in a context (judgement ty/tys of Proofs/Axis_typed.v; good index types: atoms >= 1, every sum type of size >= 2) unify neither warns nor fails otherwise, and returns a most general unifier w.r.t. eval or, on failure, the images are disjoint -- for EVERY fuel with which the model answers (C06_unify_fuel_monotone); C06_unify_total_typed gives a fuel bound computed from the types. Still open: (a) C06_unify_complete_model_fuel_partial carries the side condition `tyfuel <= unify_fuel es fs`, i.e. that the fuel formula of the check function is enough for ALL typed patterns (true on every enumerated universe: C06_typed_universe_upto12; a divergence of the model would show as verdict 14); (b) no general theorem from the Model's context-free has_type to the context judgement ty (they are tied by the sound executable checker ty_b on the enumerated universes); the bounded theorems C06_unify_complete_upto12 / _2d_upto6 and the brute-force coincidence oracle are kept as cross-checks",
-    "F24 (new, documented, outside the generated domain): on index types that contain a sum type of size 1 (e.g. TSum [TAtom 1] as a factor) unify warns and fails on overlapping typed patterns (C06_unify_size1_sum_refuted); the guard `tgood` of the completeness theorem excludes exactly these",
-    "binary / commutative / sub refinement with broadcasting, and sizes_agree as a consequence of typing (the theorems carry the boolean guards no_broadcast and sizes_agree)",
-    "refinement theorems for getitem, default_to, freshen/clone, post_init: modelled and model-checked through pt_check, proofs open",
-    "C06_repr_inv preservation by the constructors: replaced by the run-time monitor and C06_repr_inv_wf / C06_repr_inv_injective",
-    "where / stack / any / log_softmax / reshape / view / copy_ / project / dim_to_dense / iteration / tolist / to / exp / expm1 / log / logaddexp: correspondence only (no Coq model)",
+    "C06_unify_complete (unbounded, typed axes): proved by agent-UNIFY on its own branch (Proofs/Axis_complete_gen.v, Axis_typed.v, Axis_mgu.v); in this tree the bounded stop-gaps C06_unify_complete_upto12 / C06_unify_complete_2d_upto6 plus the brute-force coincidence oracle on every implementation unifier",
+    "fuel sufficiency of unify beyond the bound (a divergence of the model would show as verdict 14)",
+    "C06_reshape_refines_partial: carries explicit premises about the unifier of that call (complete_for = conclusion of C_unify, solvable = model_exists, size_preserving = wts_ty + ty_numel, wf of the result); they are discharged by agent-UNIFY's theorems for typed tensors after the merge; C06_reshape_unify_succeeds is stated with the completeness of the call as a premise; success of the remaining asserts of reshape_or_view on adjacent merges / size-1 insertion or removal is checked by the correspondence (must_succeed flag, verdict 5) only",
+    "where / stack / project: Gallina models (Model/PTensorOps.v) tied to the code by pt_check_select / pt_check_reduce on generated cases and judged by the dense specification spec_op2; refinement theorems open (where and project need unify completeness); any is proved (C06_any) under the guard 'dimension not empty or default false' (C06_any_empty_dim_refuted), dim_to_dense is proved (C06_dim_to_dense) under the guard 'a size-1 dimension is unitAxis'",
+    "copy_: value semantics proved (C06_copy); the storage re-use rule (copy_reuses) is correspondence only (observed through data_ptr)",
+    "log_softmax / norm / iteration / tolist / exp / expm1 / log / logaddexp: correspondence only (no Coq model)",
+    "F24 (degenerate one-element sum types, not generated): expansion does not broadcast a size-1 dimension whose axis is SumAxis(0, unitAxis, 0); the binary theorems carry the guard bcast_ok and C06_expansion_nonunit_size1_refuted is the witness",
 ]
 
 def _fix(x):
@@ -465,7 +498,7 @@ def replay(path):
 
 MANIFEST = dict(
     level="proof",
-    text="Coq theorems about a Gallina model of fggs/indices.py's axis algebra (eval bound, stride = affine form, index inverts eval, pattern injectivity = at most one backing element, unify soundness, unbounded completeness of unify on typed axes (total, silent, most general unifier or disjoint images; the bounded exhaustive theorems are kept as a cross-check), antiunify generalises both arguments) and of PatternedTensor (to_dense = denote, view operations, unary maps, binary operations through expansion); the model is tied to /repo by running both on generated typed axes/patterns, brute-force specifications judge every implementation output; every listed tensor operation and compositions of up to three are compared with torch on the denoted dense tensors; every PatternedTensor constructed inside the library is checked against the extracted representation invariant.",
-    note="Trusted: Coq kernel + vm_compute, extraction cross-checked against vm_compute, the Python harness (numbering of PhysicalAxis objects, independent evaluator of axes), torch's dense kernels as reference. The findings F1, F16, F16b, F21, F22 of this check are repaired in /repo and reverting any of the repairs is reported as a VIOLATION with a concrete failing input; one known finding remains (F23: exp/expm1 compute the default in float64, which overflows float32 tensors for defaults between 88.7 and 709.8). Unify completeness is proved unbounded for typed patterns (notes/UNIFY.md); open there: that the fuel formula of the model suffices for all typed patterns (side condition of C06_unify_complete_model_fuel_partial), and a general link from has_type to the context judgement. Open: binary operations with broadcasting; several operations are correspondence-only.",
+    text="Coq theorems about a Gallina model of fggs/indices.py's axis algebra (eval bound, stride = affine form, index inverts eval, pattern injectivity = at most one backing element, unify soundness, antiunify generalises both arguments and records parts of equal sizes, bounded completeness of unify on typed axes) and of PatternedTensor: to_dense = denote, view operations, unary maps, binary / commutative / sub / div through expansion WITH broadcasting (operands of different rank, unit dimensions), __post_init__, dense construction / full / from_int / eye, default_to, getitem (never raises in range), clone/freshen, copy_ and to (value semantics), reshape (under explicit premises about the unifier), any (both code paths), dim_to_dense, preservation of the representation invariant by every constructor and its equivalence with the monitor's oracle; Gallina models of where, stack, project, copy_'s storage rule. The models are tied to /repo by running both on generated typed axes/patterns; brute-force specifications judge every implementation output; every listed tensor operation and compositions of up to three are compared with torch on the denoted dense tensors; every PatternedTensor constructed inside the library is checked against the extracted representation invariant.",
+    note="Trusted: Coq kernel + vm_compute, extraction cross-checked against vm_compute, the Python harness (numbering of PhysicalAxis objects, independent evaluator of axes), torch's dense kernels as reference. All findings of this check (F1, F16, F16b, F21, F22, F23) are repaired in /repo; F24 (one-element sum types, outside the generated domain) is documented with a Coq witness. Open: unbounded unify completeness lives on agent-UNIFY's branch; reshape's theorem carries unifier premises; where / stack / project are model + correspondence.",
     technique="Coq proof (model + theorems) + model/implementation correspondence with brute-force specification oracles + differential testing against torch on denotations + runtime invariant monitor",
     design_ref="DESIGN.md section 6, C06; Appendix A.6; Appendix C")
